@@ -344,7 +344,8 @@ def connect(chk, crate):
                 "registration currency is %s, expected config.feig_config.currency" % (show(cur) if cur else None), "config currency",
                 f.sp(rbb))
     # every registration item is `?`-checked: the loop over the registration stream propagates Err
-    props = [(bb, e) for bb, e in f.ret_writes() if f.classify_ret(e) == "propagate"]
+    # `?` or its spelled-out form `Err(e) => return Err(e)`
+    props = [(bb, e) for bb, e in f.ret_writes() if f.classify_ret(e) in ("propagate", "err")]
 
     def from_stream(e, call_bb):
         return any(x[0] == "call" and x[1] == SEQ_STREAM and x[3] == call_bb for x in walk(e))
@@ -371,11 +372,12 @@ def connect(chk, crate):
                 "the returned transport (_%s) is not the one the handshake ran on (%s)" % (ok_local, locs),
                 "Ok(socket) == handshake socket", f.sp(okbb))
     # serial comparison
-    eqs = f.bool_switches(lambda e: is_call(e, "PartialEq::eq"))
-    eqs = [x for x in eqs if ty_str(f.b.blocks[x[0]]["term"]["d"].get("c", f.b.blocks[x[0]]["term"]["d"].get("m", {"l": 0})).get("l") and None) or True]
+    eqs = f.bool_switches(lambda e: is_call(e, "PartialEq::eq") or is_call(e, "PartialEq::ne"))
     cand = []
     for bb, e, tt, ft in eqs:
         e2 = strip_ref(e)
+        if e2[1].endswith("PartialEq::ne"):
+            tt, ft = ft, tt          # `a != b`: the equal edge is the false edge
         lows = [x for x in walk(e2) if x[0] == "call" and x[1] == "alloc::str::<impl str>::to_lowercase"]
         if len(e2[2]) == 2:
             cand.append((bb, e2, tt, ft, lows))
